@@ -299,7 +299,8 @@ def load_corpus(pid):
         for l in open(path):
             if l.strip():
                 c = json.loads(l)
-                c["history"] = [tuple(o) for o in c["history"]]
+                if "history" in c:
+                    c["history"] = [tuple(o) for o in c["history"]]
                 pre.append(c)
     return pre
 
@@ -316,6 +317,16 @@ def summarize(ws, nontrivial):
             distinct += 1
     return distinct
 
+def error_violation(pid, w):
+    """an exception while running a case: raised inside the library under test -> a failing input;
+    raised inside the harness/model -> reported without one"""
+    tb = w["error"]
+    last = tb.strip().splitlines()[-1][:100]
+    in_lib = "/repo/biobalm/" in tb.split("Traceback")[-1].split("harness/")[-1] or tb.strip().splitlines()[-3].strip().startswith('File "/repo/biobalm/') if len(tb.strip().splitlines()) >= 3 else False
+    if in_lib:
+        return {"property": pid, "signature": f"{pid}:library-raised:" + last.split(":")[0], "what": "the library raised an unexpected exception: " + last, "case": w["case"], "error": tb, "failing_input": True}
+    return {"property": pid, "signature": "harness-error:" + last[:80], "case": w["case"], "error": tb, "failing_input": False}
+
 def harness_errors(ws, pid):
     v = []
     for w in ws:
@@ -324,8 +335,7 @@ def harness_errors(ws, pid):
                       "what": f"history did not finish within {CASE_TIMEOUT}s (watchdog)", "failing_input": True})
             w["error"] = "timeout"
         elif w.get("error"):
-            v.append({"property": pid, "signature": "harness-error:" + w["error"].strip().splitlines()[-1][:80],
-                      "case": w["case"], "error": w["error"], "failing_input": False})
+            v.append(error_violation(pid, w))
     return v
 
 def sample_of(w):
@@ -340,3 +350,5 @@ def replay(pid, case):
 
 from props_struct import *   # noqa  (registers C02, C03, C04, C15, C16, C20)
 from props_attr import *     # noqa  (registers C01, C05, C08, C12, C14)
+from props_solver import *   # noqa  (registers C09, C10, C11)
+from props_control import *  # noqa  (registers C06, C07)
